@@ -30,6 +30,8 @@ module N :
 
   val size : coq_N -> coq_N
 
+  val coq_lor : coq_N -> coq_N -> coq_N
+
   val coq_land : coq_N -> coq_N -> coq_N
 
   val coq_lxor : coq_N -> coq_N -> coq_N
